@@ -101,7 +101,7 @@ def c04(tier):
     v, cov, te, wall = syscheck.run_family(
         'C04', tier, family, ['NoTmpLeft', 'Fresh'], ['OnlyCompleteOutput', 'NoTrample'],
         {'rc', 'file', 'tmp', 'ran', 'row.failed', 'row.gen'},
-        bounds(tier, (4, 3), (5, 4)), sample_n=None if tier == 'thorough' else 60,
+        bounds(tier, (4, 3), (5, 4)), sample_n=None if tier == 'thorough' else 30,
         pads=(1, 65536, 4194304) if tier == 'thorough' else (1, 65536, 1048576), watch=True,
         note='one target whose rule versions cover stdout / $3 / nothing / both / direct write to $1, exit 0, '
              'non-zero and death by SIGKILL, over prior states absent / generated / hand-written')
@@ -452,4 +452,61 @@ def c18(tier):
         'timestamps are compared as numbers (4 decimals)'])
 
 
-CHECKS = {'C18': c18, 'C13': c13, 'C15': c15, 'C06': c06, 'C16': c16, 'C08': c08, 'C09': c09, 'C10': c10, 'C12': c12, 'C07': c07, 'C17': c17, 'C04': c04, 'C01': c01, 'C02': c02, 'C03': c03, 'C05': c05, 'C11': c11, 'C14': c14}
+def selftest(tier='quick'):
+    """binding demonstration: a recorded real execution is accepted by the trace specifications, and stops being
+    accepted when one event is removed or one recorded field is changed"""
+    import copy
+    import random
+    import jobdrive
+    import jobcheck
+    import tracecheck
+    bindir = common.build_redo()
+    root = common.workdir('selftest')
+    rnd = random.Random(7)
+    pj = jobdrive.gen_project(rnd, 8, stamp=1)
+    pdir = root + '/p'
+    jobdrive.materialize(pj, pdir)
+    trace = root + '/trace.ndjson'
+    open(trace, 'w').close()
+    r = jobdrive.run_build(bindir, pdir, trace, ['redo', '-j3'] + jobcheck.roots(pj), extra_env={'REDO_LOG': '0'})
+    assert r['rc'] == 0, r['stderr']
+    evs = tracecheck.load(trace)
+    rows, edges, integ = tracecheck.read_census(pdir + '/.redo/db.sqlite3')
+    cases = []
+    jr = [x for run in tracecheck.jobs_runs(evs) for x in run]
+    lr = tracecheck.locks_run(evs)
+    dr = tracecheck.db_run(evs, (rows, edges))
+    inv = {'TraceJobs': jobcheck.TRACE_INV, 'TraceLocks': ['Accepted', 'Mutex'], 'TraceDb': ['Accepted']}
+
+    def drop(recs, pred):
+        i = next(i for i, x in enumerate(recs) if pred(x))
+        return recs[:i] + recs[i + 1:]
+
+    def flip(recs, pred, key, val):
+        out = copy.deepcopy(recs)
+        x = next(x for x in out if pred(x))
+        x[key] = val(x[key]) if callable(val) else val
+        return out
+    cases.append(('TraceJobs', 'unchanged trace', jr, True))
+    cases.append(('TraceJobs', 'one TokGet removed', drop(jr, lambda x: x['ev'] == 'TokGet'), False))
+    cases.append(('TraceJobs', 'a released token not written (shared 1 -> 0)', flip(jr, lambda x: x['ev'] == 'TokRel' and x['shared'] == 1, 'shared', 0), False))
+    cases.append(('TraceJobs', 'one Reap removed', drop(jr, lambda x: x['ev'] == 'Reap'), False))
+    cases.append(('TraceLocks', 'unchanged trace', lr, True))
+    cases.append(('TraceLocks', 'lock grant of a built target removed', drop(lr, lambda x: x['ev'] == 'Take' and any(y['ev'] == 'Start' and y['fid'] == x['fid'] for y in lr)), False))
+    cases.append(('TraceLocks', 'a commit removed before the unlock', drop(lr, lambda x: x['ev'] == 'Commit' and lr[lr.index(x) - 1]['ev'] == 'Rec'), False))
+    cases.append(('TraceDb', 'unchanged trace', dr, True))
+    cases.append(('TraceDb', 'a saved row changed (changed_runid + 1)', flip(list(reversed(dr)), lambda x: x['ev'] == 'RowSave' and x['changed'] > 0, 'changed', lambda v: v + 1)[::-1], False))
+    cases.append(('TraceDb', 'a dependency edge not recorded', drop(dr, lambda x: x['ev'] == 'DepAdd'), False))
+    bad = 0
+    for i, (module, what, recs, want) in enumerate(cases):
+        path = '%s/case%d.ndjson' % (root, i)
+        tracecheck.write_ndjson(recs, path)
+        tr = tracecheck.validate(module, path, root, inv[module])
+        ok = tr.ok == want and not tr.error
+        print('%-10s %-55s %s%s' % (module, what, 'accepted' if tr.ok else 'rejected (%s)' % tr.violated, '' if ok else '   <-- UNEXPECTED'))
+        bad += 0 if ok else 1
+    print('selftest %s' % ('ok' if not bad else 'FAILED'))
+    return 0 if not bad else 2
+
+
+CHECKS = {'selftest': selftest, 'C18': c18, 'C13': c13, 'C15': c15, 'C06': c06, 'C16': c16, 'C08': c08, 'C09': c09, 'C10': c10, 'C12': c12, 'C07': c07, 'C17': c17, 'C04': c04, 'C01': c01, 'C02': c02, 'C03': c03, 'C05': c05, 'C11': c11, 'C14': c14}
